@@ -457,7 +457,7 @@ Qed.
 Lemma verdict_cases cfg t : has_main t = true ->
   match o_verdict (assemble_model cfg t) with
   | VOk | VLib _ | VHang => True
-  | VCatchAll x => x = RecursionError \/ x = MemoryError
+  | VCatchAll x => x = MemoryError
   end.
 Proof.
   intros Hmain. unfold assemble_model.
@@ -475,13 +475,13 @@ Proof.
 Qed.
 
 Theorem specific_under_guards cfg t : has_main t = true ->
-  counts_materialisable cfg t = true -> expr_depth_ok cfg t = true ->
+  counts_materialisable cfg t = true ->
   specific (assemble_model cfg t) = true.
 Proof.
-  unfold counts_materialisable, expr_depth_ok, specific.
+  unfold counts_materialisable, specific.
   intros Hmain. pose proof (verdict_cases cfg t Hmain) as H.
-  destruct (o_verdict (assemble_model cfg t)) as [| k | x |]; intros G1 G2; try reflexivity; try discriminate.
-  destruct H as [H|H]; subst x; discriminate.
+  destruct (o_verdict (assemble_model cfg t)) as [| k | x |]; intros G1; try reflexivity; try discriminate.
+  subst x; discriminate.
 Qed.
 
 (* the output path is only touched by the last step, and that step cannot fail: every word handed to the Writer has been
